@@ -56,15 +56,7 @@ ASSUMPTIONS = [
 
 # development aid: failure classes ("oracle|cls|exc") to look past while a
 # confirmed defect is still in the tree.  MUST be empty in the final module.
-EXCLUDE_CLASSES = set([
-    "transparency|nodid/corrupt:T>I:ACK|ProtocolError",
-    "transparency|did/corrupt:T>I:ACK|ProtocolError",
-    "transparency|did/atn|ProtocolError",
-    "frame-exceeds-lr|did/T>I|",
-    "unexpected-exception|did|error",
-    "unexpected-exception|did|AttributeError",
-    "unexpected-exception|nodid|AttributeError",
-])  # DEV
+EXCLUDE_CLASSES = set()
 
 NMAX = 24
 
